@@ -205,6 +205,7 @@ def gen (size : Nat) : G (Module × Opts × String) := do
     if (← chance 12) then return (if (← chance 50) then 0xfe else 0xff) else below npat)
   let pos ← below len
   let ords := (ords.take pos ++ [npat - 1] ++ ords.drop (pos + 1)).map u8
+  let ords := if S3m.playable ords then ords else u8 (npat - 1) :: ords.drop 1
   let nz ← range 3 95
   let emptyPat ← below (npat + 3)
   let pats ← (List.range npat).mapM fun k => do
